@@ -16,7 +16,13 @@ fn healthy_conn(r: &mut Rng, nonce: &mut u64, port: u16, span_ms: u64) -> ConnPl
     let n = r.usize_in(2, 4);
     for j in 0..n {
         let body = if r.chance(1, 3) { let k = r.usize_in(0, 300); Some(r.bytes(k)) } else { None };
-        let w = WorkReq { nonce: *nonce, steps: r.range(0, 2) as u32, step_ms: r.range(0, 60), panic_at: 0, resp_bytes: *r.pick(&[0usize, 50, 2000]), body, chunked: None };
+        let mut w = WorkReq { nonce: *nonce, steps: r.range(0, 2) as u32, step_ms: r.range(0, 60), panic_at: 0, resp_bytes: *r.pick(&[0usize, 50, 2000]), body, chunked: None };
+        if w.unread() {
+            // the healthy clients are the yardstick: no request of theirs
+            // leaves its body unread (after which hyper closes the connection
+            // and can cut the response short - C16's known findings)
+            w.body = None;
+        }
         *nonce += 1;
         let bytes = if j + 1 == n && r.chance(1, 4) { w.bytes_with(true, false) } else { w.bytes() };
         c.steps.push(Step::Send { data: Blob(bytes), completes: Some(j) });
